@@ -63,6 +63,7 @@ def fmtExc : Exc → String
   | .connTimeout => "UpnpConnectionTimeoutError"
   | .valueError => "RAW:ValueError"
   | .overflowError => "RAW:OverflowError"
+  | .parseError => "RAW:ParseError"
   | .other => "?"
 
 def parseExc (t : String) : Exc :=
@@ -72,6 +73,7 @@ def parseExc (t : String) : Exc :=
   else if t = "UpnpConnectionTimeoutError" then .connTimeout
   else if t = "RAW:ValueError" then .valueError
   else if t = "RAW:OverflowError" then .overflowError
+  else if t = "RAW:ParseError" then .parseError
   else match t.splitOn ":" with
     | ["UpnpResponseError", n] => (match n.toNat? with | some k => .responseError k | none => .other)
     | _ => .other
@@ -147,11 +149,13 @@ def finalize (st : St) : St :=
   match st.cur with
   | none => st
   | some p =>
+    -- the model's step record is the very object the theorems (`c09_history`) are about
+    let ms := modelStepS st.cfg st.susp st.probes st.nsvc st.rt p.call p.reacts
     let o := runCallS st.cfg st.susp st.rt p.call p.reacts
-    let mReq := o.exch.map fmtExch
-    let mRes := fmtResult o.res
-    let mRouted := fmtRouted (st.probes.map fun s => (s, get? o.rt s))
-    let mSidFor := fmtSidFor ((List.range st.nsvc).map fun i => (i, sidForService o.rt i))
+    let mReq := ms.exch.map fmtExch
+    let mRes := fmtResult ms.res
+    let mRouted := fmtRouted ms.routed
+    let mSidFor := fmtSidFor ms.sidFor
     let n := st.steps.length
     let st := if mReq = p.reqLines then st else
       note { st with corrOk := false } s!"step{n} req impl{p.reqLines} model{mReq}"
@@ -196,22 +200,9 @@ def stepLine (st : St) (toks : List String) : St :=
       | _, _ => bad st s!"bad sidfor {l}")
   | _ => bad st s!"bad line {toks}"
 
-/-- index of the first step the judge rejects (diagnostics only) -/
-def firstBad : PyDict Str Nat → List Step → Nat → Option Nat
-  | _, [], _ => none
-  | exp, s :: rest, i =>
-    if stepInScope s then
-      if stepOk exp s then firstBad (s.exch.foldl foldExch exp) rest (i + 1) else some i
-    else none
-
 def explain (exp : PyDict Str Nat) (s : Step) : String :=
   let exp' := s.exch.foldl foldExch exp
   s!"routed={routedOk exp' s} result={resultOk s} target={targetOk s} fallback={fallbackOk s.call s.exch} valid={s.exch.all (fun e => validReq e.req)} expected[{fmtRouted (exp'.map fun p => (p.1, some p.2))}]"
-
-def expAt : PyDict Str Nat → List Step → Nat → PyDict Str Nat
-  | exp, _, 0 => exp
-  | exp, [], _ => exp
-  | exp, s :: rest, n + 1 => expAt (s.exch.foldl foldExch exp) rest n
 
 def main : IO UInt32 := do
   let lines ← readLines (← IO.getStdin)
@@ -231,10 +222,10 @@ def main : IO UInt32 := do
         let inDom := steps.all stepInScope
         let mut notes := st.notes.take 3
         if !j then
-          match firstBad [] steps 0 with
-          | some i => notes := notes ++ [s!"judge step{i} {explain (expAt [] steps i) (steps.getD i ⟨.resubscribeAll, [], .none, [], []⟩)}"]
+          match firstBadFrom [] steps 0 with
+          | some (i, exp) => notes := notes ++ [s!"judge step{i} {explain exp (steps.getD i ⟨.resubscribeAll, [], .none, [], []⟩)}"]
           | none => pure ()
-        if !inDom then notes := notes ++ ["out-of-scope-timeout"]
+        if !inDom then notes := notes ++ ["non-canonical-timeout"]
         out.putStrLn s!"case {cur} corr={if st.corrOk && st.parseOk then "ok" else "MISMATCH"} judge={if j then "ok" else "FAIL"} {" ; ".intercalate notes}"
     | [] => pure ()
     | _ => st := stepLine st toks
